@@ -32,7 +32,9 @@ var Def = driver.PropDef{
 		"R3 gates (a version below FeatureCompatibleVersion leads to an error unless no checkpoint was found; run id '?' forces db -1; the results are the recorded run id, offset and db; CurrentVersion >= FeatureCompatibleVersion); " +
 		"R4 defaults of fetchCheckpoint ('?', -1, version below the compatible one; absent key reports -1; stride 2); " +
 		"R5 clearing (skips exactly the chosen db, selects before hdel, called with the chosen db and the same source); " +
-		"R6 every c.Do error is tested and leads to an error return.",
+		"R6 every c.Do error is tested and leads to an error return; " +
+		"R7 selected database (the scan uses one connection for all databases: every keyed command of fetchCheckpoint is preceded on every path by a SELECT of the database handed in, on that connection - a SELECT skipped on a condition over the database number alone reads the database the previous call left selected); " +
+		"R8 database tag (the tag parseSourceCommand puts on queued commands is the key under which the sender remembers that a database holds this session's run id and version: before the first SELECT a variable carrying it may only hold a value that is no database, or the start database of the resume).",
 	NotDecided: "the statement over all target histories (which fields exist at run time); accuracy of `info keyspace` on proxies; parsing inside ParseKeyspace beyond its use as the database list.",
 	Trusted:    []string{"go/parser, go/types, go/cfg (x/tools v0.29.0)", "fmt.Sprintf %s/%v/%d rendering", "redigo Conn.Do/Send semantics (HGETALL returns field,value pairs)"},
 	Run:        Run,
@@ -348,6 +350,7 @@ func Run(c *core.Ctx) {
 	}
 	st.fcv()
 	st.sender()
+	st.dbTag()
 	fetch := c.Func(pkgCk, "", "fetchCheckpoint")
 	load := c.Func(pkgCk, "", "LoadCheckpoint")
 	clear := c.Func(pkgCk, "", "ClearCheckpoint")
@@ -364,6 +367,7 @@ func Run(c *core.Ctx) {
 	}
 	if fetch != nil {
 		st.reader(fetch, 1)
+		st.selected(fetch, load)
 	}
 	if load != nil && fetch != nil {
 		st.loader(load, fetch, clear)
@@ -383,6 +387,8 @@ func Run(c *core.Ctx) {
 	c.Expect("R4.defaults", 5)
 	c.Expect("R5.clear", 4)
 	c.Expect("R6.errors", 6)
+	c.Expect("R7.selected-db", 2)
+	c.Expect("R8.db-tag", 1)
 }
 
 // fcv reads the FcvCheckpoint composite literal.
